@@ -31,6 +31,7 @@ type elObj struct {
 	afterStart bool
 	terms   int
 	promotes, demotes int
+	failedStop        bool // a StopWithContext of this object returned an error (no OnDemote promised)
 	healthTick int
 	lastAckRev uint64
 	inDemote   int
@@ -63,6 +64,7 @@ type Inst struct {
 	inflightOps  int
 	apiBusy      int
 	watchOKAt    time.Duration
+	fellAt       time.Duration // latest falling edge of the claim
 }
 
 func (in *Inst) key() string { return in.cfg.Group }
@@ -147,6 +149,9 @@ func (m *obsMetrics) SetIsLeader(v float64, _ prometheus.Labels) {
 					ev.Leaders = append(ev.Leaders, other.idx)
 				}
 			}
+		}
+		if !val {
+			o.in.fellAt = now
 		}
 		if val {
 			o.termToken = tok
@@ -464,6 +469,10 @@ func (d *Driver) apiCall(in *Inst, o *elObj, a *Action, ev *ApiEvt) {
 			d.signal()
 		}
 	}()
+	// the caller's goroutine works for this instance (stalls at pre-lock sites are accounted to it)
+	d.mu.Lock()
+	d.gidInst[goid()] = in.idx
+	d.mu.Unlock()
 	var err error
 	var b bool
 	switch a.Kind {
@@ -519,12 +528,12 @@ func (d *Driver) apiCall(in *Inst, o *elObj, a *Action, ev *ApiEvt) {
 			o.cancelStart()
 		}
 	case AStatus:
-		_ = o.el.Status()
+		d.checkSnapshot(in, o, o.el.Status())
 	case AReadAPI:
 		_ = o.el.IsLeader()
 		_ = o.el.LeaderID()
 		_ = o.el.Token()
-		_ = o.el.Status()
+		d.checkSnapshot(in, o, o.el.Status())
 	case ARegister:
 		o.el.OnPromote(func(ctx context.Context, token string) { freeCb.Add(1) })
 		o.el.OnDemote(func() { freeCb.Add(1) })
@@ -547,11 +556,32 @@ func (d *Driver) apiCall(in *Inst, o *elObj, a *Action, ev *ApiEvt) {
 		} else if err != leader.ErrAlreadyStopped {
 			// failed StopWithContext: instance is in limbo; not judged as stopped
 			in.stopOK = false
+			o.failedStop = true
 		}
 	}
 	d.logf("api-ret i%d.%d %s err=%v b=%v", in.idx, o.gen, a.Kind, errStr(err), b)
 	d.mu.Unlock()
 	d.signal()
+}
+
+// checkSnapshot: every Status() snapshot handed to a caller is self-consistent, whatever it
+// overlaps with (C18). Called from client goroutines.
+func (d *Driver) checkSnapshot(in *Inst, o *elObj, st leader.ElectionStatus) {
+	if d.free || !d.plan.judges("C18") {
+		return
+	}
+	d.mu.Lock()
+	defer d.mu.Unlock()
+	d.judgedInc("C18")
+	if st.IsLeader != (st.State == "LEADER") {
+		d.h.violate("C18", fmt.Sprintf("api-snapshot-isleader-state-mismatch/%v/%s", st.IsLeader, st.State), fmt.Sprintf("i%d.%d Status() returned to a caller: IsLeader=%v State=%s", in.idx, o.gen, st.IsLeader, st.State), d.now(), d.step)
+	}
+	if !validStates[st.State] {
+		d.h.violate("C18", "undocumented-state/"+st.State, fmt.Sprintf("i%d.%d State=%q", in.idx, o.gen, st.State), d.now(), d.step)
+	}
+	if st.IsLeader && st.State == "LEADER" && st.LeaderID != in.cfg.ID {
+		d.h.violate("C18", "api-snapshot-leader-leaderid", fmt.Sprintf("i%d.%d leader snapshot with LeaderID=%q", in.idx, o.gen, st.LeaderID), d.now(), d.step)
+	}
 }
 
 func errStr(e error) string {
@@ -584,8 +614,12 @@ func (d *Driver) notify(o *elObj, kind string) {
 	if cb == nil {
 		return
 	}
+	ne := d.h.Notifs[len(d.h.Notifs)-1]
 	go func() {
 		cb(o.conn)
+		d.mu.Lock()
+		ne.DoneStep, ne.DoneOrd = d.step, d.h.nextOrd()
+		d.mu.Unlock()
 		d.signal()
 	}()
 }
